@@ -153,6 +153,15 @@ func ruleE1(p *Prog, r *Report) {
 
 // externalSource: the call's error result comes from a caller-supplied component.
 func (p *Prog) externalSource(c *ssa.Call) (string, bool) {
+	if g := c.Call.StaticCallee(); g != nil {
+		if src := p.rawSourceHelpers()[g]; src != "" {
+			return src + " (through " + g.Name() + ")", true
+		}
+	}
+	return p.externalSource0(c)
+}
+
+func (p *Prog) externalSource0(c *ssa.Call) (string, bool) {
 	cc := &c.Call
 	if cc.IsInvoke() {
 		tn := typeName(cc.Value.Type())
@@ -176,6 +185,93 @@ func (p *Prog) externalSource(c *ssa.Call) (string, bool) {
 		}
 	}
 	return "", false
+}
+
+// rawSourceHelpers: unexported functions of the root package that call a caller-supplied component and hand its
+// error back as it is (`return ledger.SetValue(..)` in a helper shared by Store and Remove). Such a helper is itself
+// a source for its callers, which must wrap; it is not reported as long as every caller is library code.
+var rawHelperCache map[*ssa.Function]string
+
+func (p *Prog) rawSourceHelpers() map[*ssa.Function]string {
+	if rawHelperCache != nil {
+		return rawHelperCache
+	}
+	rawHelperCache = map[*ssa.Function]string{}
+	for _, f := range p.TopFuncs() {
+		if p.IsTestFile(f.Pos()) || f.Object() == nil || f.Object().Exported() || !lastResultIsError(f) {
+			continue
+		}
+		src := ""
+		eachInstr(f, func(in ssa.Instruction) {
+			c, ok := in.(*ssa.Call)
+			if !ok {
+				return
+			}
+			s0, ok := p.externalSource0(c)
+			if !ok {
+				return
+			}
+			var ev ssa.Value
+			if isErrorType(c.Type()) {
+				ev = c
+			} else if tup, ok := c.Type().(*types.Tuple); ok && tup.Len() > 0 && isErrorType(tup.At(tup.Len()-1).Type()) {
+				for _, ref := range *c.Referrers() {
+					if ex, ok := ref.(*ssa.Extract); ok && ex.Index == tup.Len()-1 {
+						ev = ex
+					}
+				}
+			}
+			if ev == nil {
+				return
+			}
+			for _, ret := range returnsOf(f) {
+				if len(ret.Results) > 0 && sameValue(ret.Results[len(ret.Results)-1], ev) {
+					src = s0
+				}
+			}
+		})
+		if src == "" {
+			continue
+		}
+		cs := p.CallersOf(f)
+		all := len(cs) > 0
+		for _, c := range cs {
+			if p.IsTestFile(c.Caller.Pos()) {
+				all = false
+				continue
+			}
+			// every caller must itself sanitise the error: a caller that passes it on as it is leaves the helper the
+			// place where the wrapping is missing (and the report stays there)
+			cv, ok := c.Instr.(*ssa.Call)
+			if !ok {
+				all = false
+				continue
+			}
+			var ev ssa.Value
+			if isErrorType(cv.Type()) {
+				ev = cv
+			} else if tup, ok := cv.Type().(*types.Tuple); ok && tup.Len() > 0 {
+				for _, ref := range *cv.Referrers() {
+					if ex, ok := ref.(*ssa.Extract); ok && ex.Index == tup.Len()-1 {
+						ev = ex
+					}
+				}
+			}
+			if ev == nil {
+				all = false
+				continue
+			}
+			for _, ret := range returnsOf(c.Caller) {
+				if len(ret.Results) > 0 && sameValue(ret.Results[len(ret.Results)-1], ev) && !knownNil(ev, ret.Block()) {
+					all = false
+				}
+			}
+		}
+		if all {
+			rawHelperCache[f] = src
+		}
+	}
+	return rawHelperCache
 }
 
 // errFirstExempt: functions that consult a found flag before the error, with the reason.
@@ -335,6 +431,10 @@ func ruleE2(p *Prog, r *Report) {
 							"the found flag returned by "+src+" is consulted before its error: a failure of the caller's component (found=false, err!=nil) is taken for 'not found' and reported under a library category")
 					}
 				}
+			}
+			if raw != "" && p.rawSourceHelpers()[TopLevel(fn)] != "" {
+				r.Ok(R, cons, p.InstrPos(in), "private helper hands the component's error to its callers, each of which is checked as a caller of the component")
+				return
 			}
 			if raw != "" {
 				// allowed: PersistentSlabStorage delegating to its own methods (already categorised) is not an external source;
